@@ -537,7 +537,7 @@ func shortWithBlob(rt *rapid.T) []byte {
 }
 
 func TestMutatedEncodings(t *testing.T) {
-	ev.Rapid(t, 2500, 40000)
+	ev.Rapid(t, 6000, 40000)
 	rapid.Check(t, func(rt *rapid.T) {
 		c := harvest(rt)
 		type target struct {
